@@ -121,6 +121,9 @@ func setRecv(vm *otto.Otto, tok string) error {
 
 func implC09(line string) (res string) {
 	f := strings.Fields(line)
+	if f[0] == "seq" {
+		return implSeq(f[1], f[2], f[3:])
+	}
 	op, rt, args := f[0], f[1], f[2:]
 	vm := vmPool.Get().(*otto.Otto)
 	healthy := true
@@ -182,6 +185,90 @@ func implC09(line string) (res string) {
 		return "error:" + strings.ReplaceAll(err.Error(), " ", "_")
 	}
 	return resTok(vm, op, v)
+}
+
+// ---------------------------------------------------------------- order of conversions (scripted operands)
+
+const seqPrelude = `var log = ""; var THROW = {};
+function mk(id, outs) {
+	var i = 0;
+	var f = function () {
+		log += id;
+		var o = outs[i < outs.length ? i : outs.length - 1];
+		i++;
+		if (o === THROW) { throw new Error("script"); }
+		return o;
+	};
+	return {valueOf: f, toString: f};
+}`
+
+// implSeq runs String.prototype.<m>.call(R, A0, A1, …) where each operand is a primitive (P<value>) or an object
+// whose valueOf/toString log the call and return scripted primitives or throw (O<out>/<out>…, `!` = throw).
+func implSeq(m, rt string, as []string) (res string) {
+	vm := otto.New()
+	defer func() {
+		if r := recover(); r != nil {
+			res = "panic"
+		}
+	}()
+	if _, err := vm.Run(seqPrelude); err != nil {
+		return "harness-error:prelude"
+	}
+	nv := 0
+	operand := func(id, tok string) (string, bool) {
+		if strings.HasPrefix(tok, "P") {
+			name := fmt.Sprintf("v%d", nv)
+			nv++
+			if vm.Set(name, h.ParseVal(tok[1:])) != nil {
+				return "", false
+			}
+			return name, true
+		}
+		if !strings.HasPrefix(tok, "O") {
+			return "", false
+		}
+		var outs []string
+		for _, o := range strings.Split(tok[1:], "/") {
+			if o == "!" {
+				outs = append(outs, "THROW")
+				continue
+			}
+			name := fmt.Sprintf("v%d", nv)
+			nv++
+			if vm.Set(name, h.ParseVal(o)) != nil {
+				return "", false
+			}
+			outs = append(outs, name)
+		}
+		return `mk("` + id + `", [` + strings.Join(outs, ",") + `])`, true
+	}
+	call := "String.prototype." + m + ".call("
+	e, ok := operand("R", rt)
+	if !ok {
+		return "bad-op"
+	}
+	call += e
+	for i, a := range as {
+		e, ok := operand(strconv.Itoa(i), a)
+		if !ok {
+			return "bad-op"
+		}
+		call += ", " + e
+	}
+	call += ")"
+	v, tok := runTok(vm, call)
+	if tok == "" {
+		tok = resTok(vm, m, v)
+	}
+	lv, err := vm.Get("log")
+	if err != nil {
+		return "harness-error:log"
+	}
+	lg, _ := lv.ToString()
+	if lg == "" {
+		lg = "-"
+	}
+	return lg + ";" + tok
 }
 
 // ---------------------------------------------------------------- own-property observers of String objects
@@ -653,6 +740,90 @@ func genC09(c *h.Ctx) {
 				w := randUnits(r, 5)
 				c.Add("ownnames Mw:"+w, "ownnames:w")
 				c.Add("hasown Cw:"+w+" "+h.BytesTok("1"), "hasown:w")
+			}
+		}
+	}
+	// (3d) order of conversions: scripted receivers and arguments
+	{
+		type meth struct {
+			name  string
+			kinds string // one letter per argument: n = number, s = string
+		}
+		meths := []meth{{"charAt", "n"}, {"charCodeAt", "n"}, {"slice", "nn"}, {"substring", "nn"}, {"substr", "nn"}, {"indexOf", "sn"}, {"lastIndexOf", "sn"},
+			{"split", "sn"}, {"concat", "ss"}, {"localeCompare", "s"}, {"replace", "ss"}, {"trim", ""}, {"toUpperCase", ""}}
+		recvs := []string{"abcde", "a,b,c", "", "xyx"}
+		val := func(kind byte) string {
+			if kind == 'n' {
+				return []string{fTok(0), fTok(1), fTok(2), fTok(3), fTok(-1), fTok(math.NaN()), fTok(math.Inf(1)), fTok(1.5), h.BytesTok("2"), "n", "b:1"}[r.Intn(11)]
+			}
+			return []string{h.BytesTok("b"), h.BytesTok(","), h.BytesTok(""), h.BytesTok("x"), h.BytesTok("cd"), h.BytesTok("zz"), fTok(1), "n", "b:0"}[r.Intn(9)]
+		}
+		shape := func(kind byte, sh int) string {
+			switch sh {
+			case 0:
+				return "P" + val(kind)
+			case 1:
+				return "O" + val(kind)
+			case 2:
+				return "O!"
+			case 3:
+				return "O" + val(kind) + "/" + val(kind)
+			case 4:
+				return "Pu"
+			}
+			return "O" + val(kind) + "/!"
+		}
+		for _, m := range meths {
+			n := len(m.kinds) + 1
+			// systematic: every combination of {primitive, object, throwing object} per operand, plus omitted trailing arguments
+			combos := 1
+			for i := 0; i < n; i++ {
+				combos *= 3
+			}
+			for rep := 0; rep < c.N(4, 40); rep++ {
+				for cb := 0; cb < combos; cb++ {
+					x := cb
+					recv := recvs[r.Intn(len(recvs))]
+					var toks []string
+					for i := 0; i < n; i++ {
+						sh := x % 3
+						x /= 3
+						if i == 0 {
+							if sh == 0 {
+								toks = append(toks, "P"+h.BytesTok(recv))
+							} else if sh == 1 {
+								toks = append(toks, "O"+h.BytesTok(recv))
+							} else {
+								toks = append(toks, "O!")
+							}
+						} else {
+							toks = append(toks, shape(m.kinds[i-1], sh))
+						}
+					}
+					for cut := n; cut >= 1; cut-- {
+						c.Add("seq "+m.name+" "+strings.Join(toks[:cut], " "), "seq:"+m.name)
+					}
+				}
+			}
+			// random shapes, including value sequences and undefined arguments
+			for i := 0; i < c.N(300, 20000); i++ {
+				recv := recvs[r.Intn(len(recvs))]
+				toks := []string{[]string{"P", "O", "O"}[r.Intn(3)] + h.BytesTok(recv)}
+				for j := 1; j < n+r.Intn(2); j++ {
+					k := byte('s')
+					if j-1 < len(m.kinds) {
+						k = m.kinds[j-1]
+					}
+					toks = append(toks, shape(k, r.Intn(6)))
+				}
+				c.Add("seq "+m.name+" "+strings.Join(toks, " "), "seq:"+m.name)
+			}
+		}
+		// split with a limit that converts to 0, replace with and without a match
+		for _, l := range []string{fTok(0), fTok(4294967296), fTok(math.NaN()), h.BytesTok("0"), "n", fTok(0.5), fTok(1)} {
+			for _, sep := range []string{"O" + h.BytesTok(","), "O!", "P" + h.BytesTok(","), "Pu"} {
+				c.Add("seq split P"+h.BytesTok("a,b")+" "+sep+" P"+l, "seq:split0")
+				c.Add("seq split O"+h.BytesTok("a,b")+" "+sep+" O"+l, "seq:split0")
 			}
 		}
 	}
